@@ -67,6 +67,8 @@ fn gen_cfg(ctx: &Ctx, rng: &mut Rng, text_entries: bool, in_pieces_ok: bool) -> 
     cfg.route.via_clone = rng.chance(250);
     cfg.route.late_stage = pipeline && rng.chance(400);
     cfg.route.child_last = pipeline && cfg.input.is_some() && rng.chance(350);
+    // (only small outputs go to the worker's own stdout/stderr files that way)
+    cfg.route.leave_uncaptured_alone = matches!(entry, Entry::ExecCapture | Entry::ExecCommunicate) && si.out1 + si.out2 < 200_000 && rng.chance(400);
     // ... or from a process that has closed some of its own standard descriptors: the pipes of the exchange then get
     // the numbers 0..2 on the parent's side
     cfg.route.free_std = if rng.chance(150) { rng.range(1, 7) as u8 } else { 0 };
@@ -486,6 +488,100 @@ pub fn run(ctx: &mut Ctx, which: Which) {
                     );
                 }
             }
+        });
+    }
+    if which.c01 {
+        // "all subsets of piped streams" includes the empty one: an exchange that has no stream (left) to service - nothing
+        // piped at all, the pipes already consumed by an earlier call, one more read() after an exchange that had only
+        // stdin to deliver - has nothing to wait for and returns.  A caller stuck in a wait that no descriptor and no
+        // timeout can end is a node of the wait-for graph that cannot proceed: a certificate, not a timeout.
+        let ne = ctx.n(60, 900);
+        ctx.family("nothing-left-to-service", ne, |ctx, rng, i| {
+            run::begin_case();
+            let dir = ctx.scratch("c01e");
+            let seed = rng.next() >> 1;
+            let n1 = rng.range(0, 3000);
+            let code = rng.range(0, 5);
+            let rep = dir.join("rep");
+            let scen = i % 6;
+            let reads_in = matches!(scen, 3 | 4);
+            let script = format!("{}w1:{}:512,w2:9:9,x{}", if reads_in { "R," } else { "" }, n1, code);
+            let input = comm::input_for(seed, rng.range(0, 70_000) as usize);
+            let argv: Vec<std::ffi::OsString> = vec![ctx.vchild.clone().into_os_string(), "io".into(), seed.to_string().into(), script.clone().into(), rep.clone().into_os_string()];
+            let exec = || subprocess::Exec::cmd(&argv[0]).args(&argv[1..]);
+            let null = || subprocess::Redirection::File(std::fs::OpenOptions::new().read(true).write(true).open("/dev/null").unwrap());
+            let m = run::monitored(|| -> Result<String, String> {
+                let es = |e: std::io::Error| e.to_string();
+                let ps = |e: subprocess::PopenError| e.to_string();
+                match scen {
+                    0 => {
+                        // capture() with every stream sent elsewhere
+                        let c = exec().stdin(subprocess::NullFile).stdout(subprocess::NullFile).stderr(subprocess::NullFile).capture().map_err(ps)?;
+                        Ok(format!("{}/{}/{:?}", c.stdout.len(), c.stderr.len(), c.exit_status))
+                    }
+                    1 => {
+                        // Popen::communicate_bytes with nothing piped
+                        let mut p = subprocess::Popen::create(&argv, subprocess::PopenConfig { stdin: null(), stdout: null(), stderr: null(), ..Default::default() }).map_err(ps)?;
+                        let r = p.communicate_bytes(None).map_err(es)?;
+                        let st = p.wait().map_err(ps)?;
+                        Ok(format!("{:?}/{:?}", r, st))
+                    }
+                    2 => {
+                        // a second communicate after the first has consumed the pipes
+                        let mut p = subprocess::Popen::create(&argv, subprocess::PopenConfig { stdout: subprocess::Redirection::Pipe, stderr: null(), ..Default::default() }).map_err(ps)?;
+                        let first = p.communicate_bytes(None).map_err(es)?;
+                        let second = p.communicate_bytes(None).map_err(es)?;
+                        let st = p.wait().map_err(ps)?;
+                        Ok(format!("{}/{:?}/{:?}", first.0.map(|v| v.len()).unwrap_or(usize::MAX), second, st))
+                    }
+                    3 => {
+                        // only stdin piped: one read() delivers the input, the next one has nothing to do
+                        let mut p = subprocess::Popen::create(&argv, subprocess::PopenConfig { stdin: subprocess::Redirection::Pipe, stdout: null(), stderr: null(), ..Default::default() }).map_err(ps)?;
+                        let mut c = p.communicate_start(Some(input.clone()));
+                        let a = c.read().map_err(|e| e.error.to_string())?;
+                        let b = c.read().map_err(|e| e.error.to_string())?;
+                        drop(c);
+                        let st = p.wait().map_err(ps)?;
+                        Ok(format!("{:?}/{:?}/{:?}", a, b, st))
+                    }
+                    4 => {
+                        // the same through Exec::communicate
+                        let mut c = exec().stdin(input.clone()).stdout(subprocess::NullFile).stderr(subprocess::NullFile).communicate().map_err(ps)?;
+                        let a = c.read().map_err(|e| e.error.to_string())?;
+                        let b = c.read().map_err(|e| e.error.to_string())?;
+                        Ok(format!("{:?}/{:?}", a, b))
+                    }
+                    _ => {
+                        // Exec::communicate with nothing piped and nothing to send
+                        let mut c = exec().stdin(subprocess::NullFile).stdout(subprocess::NullFile).stderr(subprocess::NullFile).communicate().map_err(ps)?;
+                        let a = c.read().map_err(|e| e.error.to_string())?;
+                        Ok(format!("{:?}", a))
+                    }
+                }
+            });
+            ctx.count("exchanges_with_no_stream_left_to_service", 1);
+            ctx.distinct(&format!("nothing|{}|{}", scen, n1 % 3));
+            let w = J::obj().set("scenario", J::i(scen as i64)).set("script", J::s(&script));
+            if let Some(c) = &m.cert {
+                ctx.violation(&format!("C01/deadlock/nothing-to-service/{}", scen), "an exchange with no stream left to service did not return: the caller waits where no descriptor and no timeout can end the wait", w.set("detail", run::cert_json(c)));
+            } else if m.hard_timeout {
+                ctx.inconclusive("exchange with nothing to service did not end (no certificate)", w);
+            } else {
+                let expect = match scen {
+                    0 => format!("0/0/Exited({})", code),
+                    1 => format!("(None, None)/Exited({})", code),
+                    2 => format!("{}/(None, None)/Exited({})", n1, code),
+                    3 => format!("(None, None)/(None, None)/Exited({})", code),
+                    4 => "(None, None)/(None, None)".to_string(),
+                    _ => "(None, None)".to_string(),
+                };
+                match m.result {
+                    Some(Ok(got)) if got == expect => {}
+                    Some(other) => ctx.violation(&format!("C01/nothing-to-service/result/{}", scen), &format!("expected {}, got {:?}", expect, other), w),
+                    None => ctx.violation(&format!("C01/nothing-to-service/panic/{}", scen), &format!("the call panicked: {:?}", m.panic), w),
+                }
+            }
+            run::end_case();
         });
     }
     if which.c01 {
